@@ -127,6 +127,13 @@ class Actor:
         self.on_close = on_close
         self.pool = [W(w, ty, self) for w, ty in zip(b.inputs(), inputs)]
         self.region_node_idx = None  # node of the enclosing region that contains this actor
+        # a required output of a linear type that cannot be synthesised must be forwarded from an input: keep one
+        for ty in (required or []):
+            if is_linear(ty) and not synthesizable(ty):
+                for w in self.pool:
+                    if w.ty == ty and not w.var:
+                        w.var = True  # reserved: only `find` (i.e. close) may take it
+                        break
         self.open_children = 0
         self.closed = False
         self.nodes = [b.input_node]  # local nodes in creation order (for state order steps)
